@@ -58,6 +58,18 @@ type Sched struct {
 	// that ran last when it is parked again (run-to-completion bias).
 	StickyPermille int
 	lastGid        uint64
+	// Pct > 0 selects priority scheduling (after Burckhardt et al., PCT):
+	// every goroutine gets a random priority when it is first seen, the
+	// parked goroutine with the highest priority always runs, and at Pct-1
+	// random decision numbers below PctHorizon the running goroutine's
+	// priority drops below all others. This reaches schedules in which one
+	// goroutine runs far ahead of another, which uniform choice almost never
+	// produces. Choices are still recorded as indices, so replay is unchanged.
+	Pct        int
+	PctHorizon int
+	pctPrio    map[uint64]float64
+	pctChange  map[int]bool
+	pctLow     float64
 
 	tasks    atomic.Int64
 	evseq    atomic.Uint64
@@ -97,6 +109,7 @@ func (s *Sched) Reseed(seed uint64) {
 	s.tapePos = 0
 	s.Rec = nil
 	s.lastGid = 0
+	s.pctPrio, s.pctChange, s.pctLow = nil, nil, 0
 	s.mu.Unlock()
 }
 
@@ -333,7 +346,11 @@ func (s *Sched) run(tasksOnly bool) error {
 			return a.seq < b.seq
 		})
 		idx := -1
-		if s.StickyPermille > 0 && s.tapePos >= len(s.Tape) && n > 1 {
+		if s.Pct > 0 && s.tapePos >= len(s.Tape) && n > 1 {
+			idx = s.pctPick()
+			s.Rec = append(s.Rec, idx)
+		}
+		if idx < 0 && s.StickyPermille > 0 && s.tapePos >= len(s.Tape) && n > 1 {
 			for i, w := range s.parked {
 				if w.gid == s.lastGid {
 					if s.rng.Intn(1000) < s.StickyPermille {
@@ -358,6 +375,41 @@ func (s *Sched) run(tasksOnly bool) error {
 		s.mu.Unlock()
 		close(w.ch)
 	}
+}
+
+// pctPick implements the priority policy; s.mu is held, s.parked is sorted.
+func (s *Sched) pctPick() int {
+	if s.pctPrio == nil {
+		s.pctPrio = map[uint64]float64{}
+		s.pctChange = map[int]bool{}
+		h := s.PctHorizon
+		if h <= 0 {
+			h = 2000
+		}
+		for i := 1; i < s.Pct; i++ {
+			s.pctChange[s.Steps+1+s.rng.Intn(h)] = true
+		}
+	}
+	best := -1
+	for i, w := range s.parked {
+		if _, ok := s.pctPrio[w.gid]; !ok {
+			s.pctPrio[w.gid] = 1 + s.rng.Float()
+		}
+		if best < 0 || s.pctPrio[w.gid] > s.pctPrio[s.parked[best].gid] {
+			best = i
+		}
+	}
+	if s.pctChange[s.Steps] {
+		s.pctLow -= 1
+		s.pctPrio[s.parked[best].gid] = s.pctLow
+		best = -1
+		for i, w := range s.parked {
+			if best < 0 || s.pctPrio[w.gid] > s.pctPrio[s.parked[best].gid] {
+				best = i
+			}
+		}
+	}
+	return best
 }
 
 // Parked reports how many goroutines are waiting to be scheduled.
